@@ -82,3 +82,17 @@ Qed.
 Definition chk_not_stuck (e : wenv) : bool := negb (fin_eqb (wfin (it e)) FStuck).
 Theorem iteration_never_stuck : forall e, wfin (it e) <> FStuck.
 Proof. by_enumeration chk_not_stuck. unfold chk_not_stuck in *. intros F. rewrite F in H. discriminate. Qed.
+
+(* between taking a call item and running it the worker sends nothing to the parent: the manager thread is not told that a slot of
+   the call queue was freed (what Model/QueueCap.v calls "wake on take"; finding H19 rests on it) *)
+Fixpoint sends_before_run (l : list act) (got : bool) : bool :=
+  match l with
+  | [] => false
+  | AGet :: k => sends_before_run k true
+  | ARun :: _ => false
+  | (APutPid | APutResult | APutException | APutSendError | APutTraceback) :: k => got || sends_before_run k got
+  | _ :: k => sends_before_run k got
+  end.
+Definition wake_on_take : bool := existsb (fun e => is_item (get e) && sends_before_run (acts (it e)) false) all_envs.
+Theorem worker_taking_an_item_tells_nobody : wake_on_take = false.
+Proof. vm_compute. reflexivity. Qed.
